@@ -23,6 +23,11 @@ FileKey(R, n, pw, O, P, id, encMeta) ==
   LET h0 == MD5(PadPw(pw) \o O \o P \o id \o (IF R >= 4 /\ ~encMeta THEN <<255, 255, 255, 255>> ELSE <<>>))
   IN Take(IF R >= 3 THEN Md5Iter(h0, 50, n) ELSE h0, n)
 
+\* the same from an already padded 32-byte password (what Algorithm 7 recovers from /O)
+FileKeyPadded(R, n, padded, O, P, id, encMeta) ==
+  LET h0 == MD5(padded \o O \o P \o id \o (IF R >= 4 /\ ~encMeta THEN <<255, 255, 255, 255>> ELSE <<>>))
+  IN Take(IF R >= 3 THEN Md5Iter(h0, 50, n) ELSE h0, n)
+
 RECURSIVE Rc4Up(_, _, _, _)       \* RC4 with key XOR i for i = from..to (ascending)
 Rc4Up(key, x, i, to) == IF i > to THEN x ELSE Rc4Up(key, Rc4(XorKey(key, i), x), i + 1, to)
 RECURSIVE Rc4Down(_, _, _)        \* RC4 with key XOR i for i = from..0 (descending)
